@@ -1,6 +1,6 @@
 // renamer is a development aid (DESIGN §6): it writes the behaviour-preserving transformations of
 // internal/sweep/benign.go into a copy of the repository (used by tools/benign_check.sh).
-// usage: renamer <repo> <copy-dir> [log|logall]   (copy-dir must already hold a copy of the repo)
+// usage: renamer <repo> <copy-dir> [log|logall|negif|guard]   (copy-dir must already hold a copy of the repo)
 package main
 
 import (
@@ -20,6 +20,9 @@ func main() {
 	if len(os.Args) > 3 && (os.Args[3] == "log" || os.Args[3] == "logall") {
 		ov, n, err = sweep.LogOverlay(repo, os.Args[3] == "logall")
 		what = "inserted calls"
+	} else if len(os.Args) > 3 && (os.Args[3] == "negif" || os.Args[3] == "guard") {
+		ov, n, err = sweep.RestructureOverlay(repo, os.Args[3])
+		what = "restructured statements"
 	} else {
 		ov, n, err = sweep.RenameOverlay(repo)
 	}
